@@ -3,7 +3,7 @@ from tools.extract import Unit, Rw
 from tools.krun import Harness
 
 PROPERTY = "C07"
-PRELUDE = ["../common/base.rs", "prelude.rs", "indexer_specs.rs", "../C01/tree_archiver.rs"]
+PRELUDE = ["../common/base.rs", "prelude.rs", "indexer_specs.rs", "../C01/tree_archiver.rs", "file_chunk.rs"]
 IX = "crates/core/src/index/indexer.rs"
 W = dict(wrap_open="impl<BE: DecryptWriteBackend> Indexer<BE> {", wrap_close="}")
 R_DISCARD = Rw(r"(?m)^(\s*)_ = ", r"\1let _ = ", regex=True, count=None, optional=True, why="`_ = e;` -> `let _ = e;`")
@@ -147,9 +147,46 @@ UNITS += [
          contract="\n    // obligation (implicit, precondition of vadd_raw): only blobs the indexer does not have under (self.blob_type, id) are packed again\n"),
 ]
 
+# ---- the 'already indexed' filters of the Packer::new pipeline (closure bodies): a blob is dropped exactly when the shared
+#      indexer already has it UNDER THIS PACKER'S TYPE (a blob of the other type with the same id must pass)
+UNITS += [
+    Unit(name="packer_filter_early", file=PKR, kind="block", within="impl<BE: DecryptWriteBackend> Packer<BE> {",
+         anchor="@closure:#1:.filter(|(_, id)|",
+         block_sig="fn packer_filter_early<BE: DecryptWriteBackend>(indexer: &SharedIndexer<BE>, blob_type: BlobType, id: &BlobId) -> (r: bool)",
+         block_tail="",
+         functions=["blob::packer::Packer::new (first filter of the packer thread: blob already indexed in this run?)"],
+         rewrites=[Rw("indexer.read().unwrap()", "indexer.vread()", why="RwLock read guard -> shared reference")],
+         contract="""
+    ensures /*@filter_drops_exactly_the_blobs_indexed_under_this_type*/ r == !(known_set(indexer.inner) matches Some(s) && s.contains((blob_type, *id))),
+"""),
+]
+
+FA = "crates/core/src/archiver/file_archiver.rs"
+UNITS += [
+    Unit(name="backup_chunk", file=FA, kind="block", within="fn backup_reader(",
+         anchor="@closure:.map(|chunk|",
+         block_sig="fn backup_chunk(this: &VFileArchiverC, chunk: RusticResult<Vec<u8>>, p: &ProgressF) -> (r: RusticResult<(DataId, u64)>)",
+         block_tail="",
+         functions=["archiver::file_archiver::FileArchiver::backup_reader (per-chunk closure: id = hash of the chunk, skip-upload decision, hand-over to the data packer)"],
+         rewrites=[
+             Rw("self.index", "this.index", why="closure over self -> parameter"),
+             Rw("self.data_packer.add(chunk.into(), BlobId::from(id))?", "this.data_packer.vadd(vbytes_of_chunk(chunk), vblobid_from_hash(&id), Ghost(this.index.data().contains(DataId(id.0))))?", why="Packer::add (channel) -> effectful stub: PRECONDITIONS 'id is the hash of these bytes' and 'the index does not have it'"),
+             Rw("DataId::from(id)", "vdataid_from(&id)", count=None, why="Id -> DataId (same bytes)"),
+         ],
+         hints=[("after", "let chunk = chunk?;", "            let ghost cbytes = chunk@;")],
+         contract="""
+    ensures
+        // the content list gets the hash of exactly these bytes with their length, and the bytes are in the repository afterwards:
+        // already indexed, or handed to the data packer under that id (and a chunk the index has is not handed over again:
+        // precondition of the hand-over)
+        /*@chunk_id_is_hash_and_chunk_is_stored*/ r matches Ok(x) ==> chunk matches Ok(c) && x.0.0 == SHA(c@) && x.1 == c@.len()
+            && (this.index.data().contains(x.0) || HANDED(x.0.0, c@)),
+"""),
+]
+
 KANI = []
 META = {"not_covered": [
-    "skip-upload decision in archiver/file_archiver.rs backup_reader (iterator adapters); the one in tree_archiver.rs backup_tree is a unit of C01 (ta_backup_tree)",
-    "the three 'already indexed' filters inside the Packer::new thread pipeline (they call Indexer::has with the packer's own type; the pipeline itself is not under contract)",
+    "the iterator chain around the per-chunk closure of backup_reader (ChunkIter -> map -> collect, the sum of the sizes); the closure itself is the unit backup_chunk, the skip-upload decision of tree_archiver.rs backup_tree is a unit of C01 (ta_backup_tree)",
+    "the second and third 'already indexed' filters inside the Packer::new thread pipeline (RawPacker::has is a unit of C08; the third filter sits inside a map_or_else closure pair) and the pipeline itself (threads, channels); the first filter is the unit packer_filter_early",
     "shift-resilience of chunk boundaries (follows from C06 at the chunk level only)",
 ]}
